@@ -54,9 +54,9 @@
 (*    modifying): the next add/remove recounts as documented (slot         *)
 (*    last_modified_slot cleared, counters recomputed, state 1).           *)
 (* E1 [schedules] Exclusive access (v5): while the flag is set,            *)
-(*    validate_for_bind refuses with the "exclusive access" error; v4      *)
-(*    ignores the flag.  validate_for_bind's error order is version,       *)
-(*    format, exclusive, initialisation.                                   *)
+(*    validate_for_bind refuses (with the "exclusive access" error, or     *)
+(*    another reason that applies as well); v4 ignores the flag; a bind    *)
+(*    succeeds iff no reason applies.                                      *)
 (* T1 [histories of one process] Round trip: to_mapped into a region of    *)
 (*    file_size() bytes followed by from_mapped yields the same block      *)
 (*    (every public field, file_size(), validate()), for every block the   *)
@@ -161,6 +161,11 @@ CreateR(ver, hp, slots, ds) ==
 FileSize(cb) == IF cb.ver = 4 THEN V4Size ELSE IF cb.hp THEN V5PSize ELSE V5Size
 IsExcl(cb)   == cb.ver >= 5 /\ cb.ex
 Valid(cb)    == cb.init /\ cb.fmt = Fmt /\ cb.ds > 0
+\* the reasons validate_for_bind may give; the code's order is version, format, exclusive, initialisation, but which of
+\* several applicable reasons is reported is left open
+BindErrs(cb) ==
+  (IF cb.ver \notin {4, 5} THEN {"version"} ELSE {}) \cup (IF cb.fmt # Fmt THEN {"format"} ELSE {})
+  \cup (IF cb.ver >= 5 /\ cb.ex THEN {"exclusive"} ELSE {}) \cup (IF ~cb.init \/ cb.ds = 0 THEN {"init"} ELSE {})
 BindR(cb) ==
   IF cb.ver \notin {4, 5} THEN "version" ELSE IF cb.fmt # Fmt THEN "format"
   ELSE IF cb.ver >= 5 /\ cb.ex THEN "exclusive" ELSE IF ~cb.init \/ cb.ds = 0 THEN "init" ELSE "ok"
@@ -397,7 +402,9 @@ Apply(st, e, dv) ==
     (* ---- messages (pure) *)
     [] e.op = "msg_rt" ->
          LET ps == PsOf(e.kind, e.n) d == Digest(e.kind, e.mid, e.n) IN
-         IF ps > MaxPayload /\ "FX05k" \in dv THEN [st |-> st, res |-> [r |-> "decerr", len |-> 36 + ps, a |-> d]]
+         \* M3: what from_bytes refuses (payload above the documented cap) is refused by to_bytes already
+         IF ps > MaxPayload THEN (IF "FX05k" \in dv THEN [st |-> st, res |-> [r |-> "decerr", len |-> 36 + ps, a |-> d]]
+                                  ELSE [st |-> st, res |-> [r |-> "encerr", a |-> d]])
          ELSE [st |-> st, res |-> [r |-> "ok", len |-> 36 + ps, a |-> d, b |-> d]]
     [] e.op = "msg_parse" ->
          LET have == VarLen(e.kind, e.n) - Fld(e, "cut", 0)
